@@ -175,6 +175,9 @@ func vspecAckType(s message.Type) bool {
 //@   modifies elems(aq.ring), aq.ping, ifaceval(msg, *message.header).remlen, ifaceval(msg, *message.header).dirty, ifaceval(msg, *message.header).packetID, message.gPacketID, heap("GF.clock"), heap("GF.mlockedAt")
 
 // Wait: registers a request (PUBLISH QoS>0, SUBSCRIBE, UNSUBSCRIBE by packet id; PINGREQ in the ping slot).
+// Assumed (not proved): an ack queue never holds more than 2^39 entries (its ring would need tens of terabytes), so
+// the size arithmetic of insert/grow does not overflow. Stated as a range assumption on the size field.
+//@ fieldrange sessions.Ackqueue.size 0 549755813888
 //@ func (*Ackqueue).Wait
 //@   results err
 //@   requires vdefAQ(aq) && aq.size <= 549755813888 && msg != nil && ifaceval(msg, *message.header) != nil && len(ifaceval(msg, *message.header).mtypeflags) == 1 && !held(addr(aq.mu))
